@@ -7,6 +7,7 @@
 //! the tree is evaluated bottom-up by merging the right subtree's value into the left one's.
 //! result: {"hash"|"roaring"|"fst": {"steps":[{"live","tomb","ch","bot","cmp","eq"}..], "tree":[live,tomb]}}
 //! (cmp / eq only on the hash backend: the other tombstone sets lack the collection traits).
+//! maps additionally: "hash_bt" = hash-map receiver absorbing b-tree-map deltas (steps only).
 use std::cmp::Ordering;
 use std::collections::{HashMap, HashSet};
 use std::hash::Hash;
@@ -249,6 +250,37 @@ map_backend!(u64, HashSet<u64>, <u64 as Key>::enc, |x: u64| x.dec(), true);
 map_backend!(u64, RoaringTombstoneSet, spread, unspread, false);
 map_backend!(String, FstTombstoneSet<String>, <String as Key>::enc, |x: String| x.dec(), false);
 
+/// hash-map receiver, b-tree-map deltas: the delta's keys are visited in ascending order, so the
+/// result (in particular the changed flag) does not depend on hash iteration order
+fn run_map_bt<W>(case: &Value) -> Value
+where
+    W: Val + Merge<W> + LatticeFrom<W> + IsBot + PartialOrd + PartialEq,
+{
+    type Recv<W> = MapUnionWithTombstones<HashMap<u64, W>, HashSet<u64>>;
+    type Delta<W> = MapUnionWithTombstones<std::collections::BTreeMap<u64, W>, HashSet<u64>>;
+    let states = case["states"].as_array().unwrap();
+    let entries = |st: &Value| -> Vec<(u64, W)> {
+        st[0].as_array().unwrap().iter().map(|kv| (kv[0].as_u64().unwrap(), W::from_json(&kv[1]))).collect()
+    };
+    let mut acc: Recv<W> = MapUnionWithTombstones::new(
+        entries(&states[0]).into_iter().collect(),
+        u64s(&states[0][1]).into_iter().collect(),
+    );
+    let mut steps = Vec::new();
+    for st in &states[1..] {
+        let delta: Delta<W> =
+            MapUnionWithTombstones::new(entries(st).into_iter().collect(), u64s(&st[1]).into_iter().collect());
+        let ch = acc.merge(delta);
+        let (m, t) = acc.clone().into_reveal();
+        let mut m: Vec<(u64, Value)> = m.into_iter().map(|(k, v)| (k, v.to_json())).collect();
+        let mut t: Vec<u64> = t.into_iter().collect();
+        m.sort_by_key(|kv| kv.0);
+        t.sort();
+        steps.push(json!({"live": m, "tomb": t, "ch": ch, "bot": acc.is_bot()}));
+    }
+    json!({ "steps": steps })
+}
+
 // keep the TombstoneSet trait import honest: the merges above go through it
 #[allow(dead_code)]
 fn _uses_trait<K, T: TombstoneSet<K>>(_: &T) {}
@@ -264,11 +296,13 @@ fn run(case: &Value) -> Value {
             "hash": run_backend::<MapB<u64, Max<u8>, HashSet<u64>, true>>(case),
             "roaring": run_backend::<MapB<u64, Max<u8>, RoaringTombstoneSet, false>>(case),
             "fst": run_backend::<MapB<String, Max<u8>, FstTombstoneSet<String>, false>>(case),
+            "hash_bt": run_map_bt::<Max<u8>>(case),
         }),
         "mapset" => json!({
             "hash": run_backend::<MapB<u64, SetUnionHashSet<u8>, HashSet<u64>, true>>(case),
             "roaring": run_backend::<MapB<u64, SetUnionHashSet<u8>, RoaringTombstoneSet, false>>(case),
             "fst": run_backend::<MapB<String, SetUnionHashSet<u8>, FstTombstoneSet<String>, false>>(case),
+            "hash_bt": run_map_bt::<SetUnionHashSet<u8>>(case),
         }),
         k => json!({"bad_kind": k}),
     }
